@@ -90,6 +90,23 @@ def nestKind : Elem V Hh where
   enc := fun v => v.toList
   dec := fun bs => if bs.length % 8 = 0 ∧ bs.length / 8 ≤ 1024 then some (ByteArray.mk bs.toArray) else none
 
+/-- element that is a `List<List<u8, U8>, U4>`: a list of variable-size items, SSZ-encoded with
+its own offset table. Root = mix_in_length(merkleize(item roots, limit 4), n). Decoding accepts
+exactly the canonical encodings (the model of `List::from_ssz_bytes`, `sszDecodeItems`). -/
+def nest2Items (bs : List UInt8) : Option (List V) := sszDecodeItems varKind 4 bs
+
+def nest2Kind : Elem V Hh where
+  pf := none
+  leafHash := fun v =>
+    let items := (nest2Items v.toList).getD []
+    mixIn (Spec.merk alg 2 (items.map varKind.leafHash)) items.length
+  packHash := fun _ => zero32
+  fixedLen := none
+  enc := fun v => v.toList
+  dec := fun bs => match nest2Items bs with
+    | some items => if sszEncode varKind items = bs then some (ByteArray.mk bs.toArray) else none
+    | none => none
+
 def kindOf (name : String) : Option (Elem V Hh) :=
   match name with
   | "u8" => some (basicKind 1)
@@ -102,6 +119,7 @@ def kindOf (name : String) : Option (Elem V Hh) :=
   | "cont" => some contKind
   | "var" => some varKind
   | "nest" => some nestKind
+  | "nest2" => some nest2Kind
   | _ => none
 
 /-- `T::default()` in SSZ bytes. -/
